@@ -545,6 +545,7 @@ func runRound(r *vk.Run, c *vk.Case, scratch string) {
 }
 
 func main() {
+	cm.RaceExitGuard()
 	_ = logger.SetLogLevel("*:NONE")
 	r := vk.Start("C10")
 	r.Rule("each case is one round: a chain over 6 accounts + counter account (storage, code, removals) with 12 request windows. A window takes the block that becomes final next, issues exactly one request for its root the way the block processors do (explicit SnapshotState before updateStateStorage, or the checkpoint that updateStateStorage itself fires when height % CheckpointRoundsModulus == 0), then a mutator goroutine runs 0-5 further chain steps (commit / finalize with prune requests / rollback above the final block) concurrently with the snapshot goroutines, whose main-DB reads are held on logical tokens released per step (2/3 of the rounds) or slowed (1/3); then the harness waits for IsPruningBlocked()==false and verifies. One request outstanding at a time, final roots only, SnapshotsBufferLen 10000, MaxSnapshots 2-3. Round types by case index mod 4: mixed (snapshots + modulus checkpoints) / snapshots only / checkpoints only (modulus 1, no rotation) / mixed with monotone state (no node-hash revisit: unique slot values, no removals, code fixed after block 0) - only the first type can contain the known checkpoint shape. Two extra fixed cases replay the minimal sequential witnesses of that shape. A window is non-trivial when the state has at least one data trie; distinct = distinct (kind, gate, steps, overlapped, rollback-in-window, prunes-buffered-in-window, #data tries, queue size) tuples.")
